@@ -288,6 +288,20 @@ def plan(ctx, sc, role, label):
             ops = mut.generic_ops(raw, rng, want)
             if t in (1, 2):
                 ops += mut.hello_ops(raw, rng, t == 1)
+            if t == 16 and role == "client" and \
+                    sc.name.split("-")[1] == "rsa":
+                # RSA key transport: premasters of every odd length, really
+                # encrypted to the server's key (a bit flip in the ciphertext
+                # only ever gives the implicit-rejection value)
+                from vt import creds as _creds
+                pub = _creds.server("rsa")[0].getEndEntityPublicKey()
+                for n in (0, 1, 2, 3, 47, 49, 200):
+                    pm = bytes([3, 3] + [7] * 198)[:n]
+                    ct = bytes(pub.encrypt(bytearray(pm)))
+                    body = ct if sc.ver == (3, 0) else \
+                        len(ct).to_bytes(2, "big") + ct
+                    ops.append(("cke_premaster_len:%d" % n,
+                                wire.hs_msg(16, body)))
             if t in (11, 25):
                 ops += mut.cert_ops(raw, rng)
                 if t == 11:
@@ -296,6 +310,7 @@ def plan(ctx, sc, role, label):
             if ctx.quick:
                 # sample operators but always keep the bombs
                 always = ("zbomb", "ext_u16=", "psk_", "sni:", "dertree_oid",
+                          "cke_premaster_len",
                           "dertree_empty:bitstr",
                           "dertree_empty:octstr", "dertree_trunc1:bitstr",
                           "ext_empty:51", "ext_empty:43", "ext_empty:10",
